@@ -42,6 +42,18 @@ def main():
     mism, counts = [], dict(calls=0, faults=0, partb_calls=0, partb_faults=0)
     pool = {r: K(r) for r in range(0, 40)}        # one object per rank: reference counts are per object
 
+    class V:
+        """value objects: one per rank, counted in the ledger like the keys"""
+        __slots__ = ('v',)
+
+        def __init__(self, v):
+            self.v = v
+
+        def __repr__(self):
+            return 'V%d' % self.v
+    emb._vals = [V(i) for i in range(1, 7)]
+    vpool = {('v', i + 1): o for i, o in enumerate(emb._vals)}
+
     def build(path_acts, cls_=None):
         t = (cls_ or cls)()
         for a in path_acts:
@@ -63,7 +75,9 @@ def main():
         # the interpreter; frames and generators kept by a traceback are released by the collector)
         if impl != 'c':
             return {}
-        return {r: sys.getrefcount(o) for r, o in pool.items()}
+        d = {r: sys.getrefcount(o) for r, o in pool.items()}
+        d.update({'v%d' % r[1]: sys.getrefcount(o) for r, o in vpool.items()})
+        return d
 
     def with_hook(fn, fail_at=None):
         log = []
